@@ -25,7 +25,13 @@ func SelVal[T any](_ <-chan T, v reflect.Value) T {
 		var z T
 		return z
 	}
-	return v.Interface().(T)
+	x := v.Interface()
+	if x == nil {
+		// a nil value of an interface element type (`errCh <- nil`): the assertion below would panic
+		var z T
+		return z
+	}
+	return x.(T)
 }
 
 // Select implements a select statement with two or more communication clauses.
